@@ -227,6 +227,23 @@ def explore_item(item):
     spec, cores, H, policy, ref, schedules = item
     out = []
     for sch in schedules:
+        if sch.get("second_level"):
+            # thorough: all (subsampled) second deviations after a given first deviation
+            first = {k: v for k, v in sch.items() if k != "second_level"}
+            r1 = run_mp(spec, cores, H, policy, first)
+            (i0, _), = first.items()
+            later = [{**first, i: alt} for i, (cur, en, dflt, desc) in enumerate(r1["points"]) if i > i0
+                     for alt in en if alt != dflt]
+            cap = sch["second_level"]
+            if len(later) > cap:
+                step = len(later) / float(cap)
+                later = [later[int(j * step)] for j in range(cap)]
+            for s2 in later:
+                r = run_mp(spec, cores, H, policy, s2)
+                v = judge(ref, r)
+                out.append((s2, v, hashlib.blake2b(repr(r["log"]).encode(), digest_size=8).hexdigest(),
+                            len(r["points"]), r["stages"], dict(r["stats"])))
+            continue
         r = run_mp(spec, cores, H, policy, sch)
         v = judge(ref, r)
         out.append((sch, v, hashlib.blake2b(repr(r["log"]).encode(), digest_size=8).hexdigest(), len(r["points"]),
@@ -252,6 +269,15 @@ def real_process_run(spec, cores, H, seed=5):
     mpm.run_in_process, mpm.MultiProcessMediator._start_processes = _rip, _start
     log = []
     med = None
+    import signal
+
+    class RealTimeout(Exception):
+        pass
+
+    def on_alarm(signum, frame):
+        raise RealTimeout()
+    old = signal.signal(signal.SIGALRM, on_alarm)
+    signal.alarm(120)
     try:
         med = cfg.build(make_config(spec, True, cores), spec.start, seed)
         _attach(med, log, H)
@@ -260,7 +286,11 @@ def real_process_run(spec, cores, H, seed=5):
                 med.run()
         except (EndOfRun, Stop):
             pass
+        except RealTimeout:
+            log.append(("deadlock", "the run with real OS processes did not finish within 120 s", ()))
     finally:
+        signal.alarm(0)
+        signal.signal(signal.SIGALRM, old)
         mpm.run_in_process, mpm.MultiProcessMediator._start_processes = orig_rip, orig_start
         if med is not None:
             with contextlib.redirect_stdout(io.StringIO()):
@@ -330,6 +360,11 @@ def run(ctx):
                     capped = True
                 for j in range(0, len(devs), 25):
                     items.append((spec, cores, H, pol, ref, devs[j:j + 25]))
+                if ctx.thorough and pol[0] in ("low", "rr") and cores == 3:
+                    # two deviations: 40 evenly spread first deviations x 40 evenly spread later ones
+                    step = max(1, len(devs) // 40)
+                    for d1 in devs[::step][:40]:
+                        items.append((spec, cores, H, pol, ref, [dict(d1, second_level=40)]))
             for (sp_, c_, _, pol, _, _), outs in zip(items, par.pmap(explore_item, items, ctx.cores)):
                 for sch, v, oc, npts, stg, stt in outs:
                     total += 1
